@@ -29,7 +29,7 @@ m = {
     "setup_cmd": "mkdir -p build evidence replays && /venv/bin/python -m pcv.setup",
     "hooks": {
         "guard": "PHYCLONE_VERIF",
-        "enable": "checks import phyclone from /repo's working tree with PHYCLONE_VERIF=1 set by pcv.env; recorders are attached from the harness (monkey-patching at import time), no source hooks live in /repo",
+        "enable": "checks import phyclone from /repo's working tree with PHYCLONE_VERIF=1 set by pcv.env; recorders are attached from the harness (wrappers on module bindings at run time; /verif/pcv/sitecustom/sitecustomize.py on PYTHONPATH for spawned `phyclone run` workers); no source hooks live in /repo",
         "baseline_off_cmd": "cd /repo && env -u PHYCLONE_VERIF /venv/bin/python -m pytest -ra -q -p no:cacheprovider --timeout=900 --continue-on-collection-errors",
         "source_commits": SOURCE_COMMITS,
         "add_only": True,
